@@ -215,3 +215,14 @@ def check(ctx):
     comp('unseal', lambda v: is_call(v, 'verify', lambda s: is_call(s, 'decrypt_to_recipient', eq(P1), eq(P3)), eq(P2)), 'verify(decrypt_to_recipient(self, recipient)?, sender)')
     comp('encrypt_to_recipient', lambda v: is_call(v, 'encrypt_subject_to_recipient', lambda s: is_call(s, 'wrap_envelope', eq(P1)), eq(P2)), 'encrypt_subject_to_recipient(wrap(self), recipient)')
     comp('decrypt_to_recipient', lambda v: is_call(v, 'unwrap_envelope', lambda s: is_call(s, 'decrypt_subject_to_recipient', eq(P1), eq(P2))), 'unwrap_envelope(decrypt_subject_to_recipient(self, recipient)?)')
+
+
+_check_inner = check
+
+
+def check(ctx):
+    _check_inner(ctx)
+    from .. import panic
+    F = ctx.F
+    names = ['recipients', 'decrypt_subject_to_recipient', 'decrypt_to_recipient', 'encrypt_subject_to_recipients_opt', 'encrypt_subject_to_recipient_opt', 'encrypt_to_recipient', 'add_recipient_opt', 'seal', 'unseal']
+    panic.slice_check(ctx, 'C10.6', [F.method1('Envelope', n) for n in names if F.method1('Envelope', n)], 'recipient')
